@@ -115,3 +115,18 @@ def step_monotone_lemma(sink, prefix, rs, hyps=()):
     return [z3.ForAll(ps + [a, b], z3.Implies(z3.And(a >= 0, a < b), rs(*ps, a) + rs.term(*ps, a) <= rs(*ps, b)),
                       patterns=[z3.MultiPattern(rs(*ps, a), rs(*ps, b))]),
             z3.ForAll(ps + [a], z3.Implies(a >= 0, rs(*ps, a) >= z), patterns=[rs(*ps, a)])]
+
+
+def induction(sink, prefix, label, params, P, unfolds, hyps=(), kind="induction"):
+    """Induction on n >= 0 for a predicate P(params..., n) over spec functions.
+    Emits  base:  hyps => P(p, 0)          (with the unfold facts at 0)
+           step:  hyps, n >= 0, P(p, n), unfold facts at n => P(p, n+1)      (p, n fresh constants)
+    and returns the conclusion ForAll p, n. n >= 0 => P(p, n); the induction principle itself is trusted (named in the evidence).
+    `unfolds(p..., n)` lists instances of defining equations of the spec functions involved."""
+    ps = [z3.FreshConst(s_, "ip") for s_ in params]
+    n = z3.FreshConst(z3.IntSort(), "in")
+    sink.add(prefix, kind, list(hyps) + list(unfolds(*ps, z3.IntVal(0))), P(*ps, z3.IntVal(0)), meta={"label": label + ": base case n = 0"})
+    sink.add(prefix, kind, list(hyps) + [n >= 0, P(*ps, n)] + list(unfolds(*ps, n)), P(*ps, n + 1), meta={"label": label + ": step n -> n+1"})
+    qs = [z3.Const("iq!%d" % i, s_) for i, s_ in enumerate(params)]
+    qn = z3.Int("iq!n")
+    return z3.ForAll(qs + [qn], z3.Implies(qn >= 0, P(*qs, qn)))
